@@ -113,6 +113,21 @@ def run(prog, chk):
             chk.ob('R17.2', f, e.ln, ok, 'endScope in %s closes a scope opened in the same function' % f.short, key='pair-end:%s#%d' % (f.short, i), nontrivial=False)
     chk.count('beginScope call sites', nb, 7)
 
+    # ---- R17.6: output switches only affect output ------------------------------------------------
+    chk.rule('R17.6', 'presentation switches (echo, warnings, QASM logging) never decide whether program code is evaluated')
+    from .C13 import _config_members
+    cfgm = {m for m in _config_members(prog, R.ev) if [f for f in R.ev['fields'] if f['name'] == m and f['type'] == 'bool']}
+    chk.count('presentation switches of the evaluator', len(cfgm), 2)
+    nsw = 0
+    for f in [x for x in R.ev_methods() if x.body]:
+        if not any(n['k'] == 'member' and n['name'] in cfgm for n in SX.walk(f.body, into_lambdas=False)):
+            continue
+        g = prog.cfg(f)
+        for c in g.calls(lambda e: e['k'] == 'mcall' and e['callee'].startswith(R.ev['name'] + '::') and SX.short(e['callee']) in ('eval', 'exec', 'call', 'callMethod')):
+            sw = [SX.show(ce) for ce, pol, _ in g.guards(c) if any(x['k'] == 'member' and x['name'] in cfgm for x in SX.walk(ce))]
+            nsw += 1
+            chk.ob('R17.6', f, c.ln, not sw, 'evaluation %s is conditional on the output switch %s: with echo off, side effects inside the operand (a measurement, a call) are skipped and '
+                   'tracked outcomes change with the --echo mode' % (SX.show(c.e)[:40], sw), key='switch-guards-eval:%s' % f.short, nontrivial=bool(sw))
     # ---- R17.4 / R17.5 CLI ---------------------------------------------------------------------
     _cli(prog, chk, R)
 
